@@ -25,6 +25,7 @@ Items (the small SDL-definition AST, also the wire format sent to the Lean model
   {"k": "other"}
 """
 import copy
+import json
 
 from gen import schema as gs
 
@@ -362,6 +363,22 @@ def shadow_roots(rng, D):
     return D
 
 
+# strings with astral / non-BMP characters, combining marks, RTL text and marks, quotes, backslashes, line breaks and
+# control characters (deprecation reasons, String defaults)
+EXOTIC = [
+    "vieux \u00e9 \u2713", "say \"no\"", "astral \U0001F600 x", "tab\tand\\slash", "family \U0001F468\u200d\U0001F469\u200d\U0001F467",
+    "combining e\u0301 a\u030a", "rtl \u05e9\u05dc\u05d5\u05dd \u200f!", "arabic \u0645\u0631\u062d\u0628\u0627", "line\nbreak", "cr\rlf\r\n",
+    "bell \u0007 unit \u001f", "nbsp\u00a0end", "ls \u2028 ps \u2029", "bmp edge \uffff \ud7ff", "math \U0001D54F", "triple \"\"\" quotes",
+    "ends with backslash \\", "\u0000 nul",
+]
+# descriptions go through block strings: no control characters, no trailing backslash (finding H5)
+EXOTIC_DESCS = ["astral \U0001F600 x", "combining e\u0301 a\u030a", "rtl \u05e9\u05dc\u05d5\u05dd \u200f!", "math \U0001D54F and \"quotes\"",
+                "nbsp\u00a0inside", "family \U0001F468\u200d\U0001F469"]
+# ID values that look numeric under Unicode / lenient rules but are not GraphQL integer literals
+ID_LOOKALIKES = ["1\u0662\u0663", "4\uff12", "\u0663", "007", "+5", "-0", "-012", "1e3", "1_000", " 42", "42 ", "4 2", "0x1F", "1.0",
+                 "123456789012345678901234567890", "-", "", "\u0967\u0968", "42", "-7", "0"]
+
+
 def decorate(rng, D, rich=True):
     """In-place variations of the declared content: root names, subscription, richer descriptions."""
     D = copy.deepcopy(D)
@@ -402,8 +419,16 @@ def decorate(rng, D, rich=True):
         for x in walk():
             if x.get("desc") is not None and rng.random() < 0.5:
                 x["desc"] = rng.choice(DESCS)
-            if x.get("deprecated") not in (None, "No longer supported") and rng.random() < 0.4:
-                x["deprecated"] = rng.choice(["vieux \u00e9 \u2713", "say \"no\"", "astral \U0001F600 x", "tab\tand\\slash"])
+            if x.get("deprecated") not in (None, "No longer supported") and rng.random() < 0.5:
+                x["deprecated"] = rng.choice(EXOTIC)
+            if isinstance(x.get("default"), str) and x["default"].startswith('"') and "type" in x:
+                base = gs.ty_base(x["type"])
+                if base == "String" and x["type"][0] != "list" and rng.random() < 0.4:
+                    x["default"] = json.dumps(rng.choice(EXOTIC), ensure_ascii=False)
+                if base == "ID" and x["type"][0] != "list" and rng.random() < 0.6:
+                    x["default"] = json.dumps(rng.choice(ID_LOOKALIKES), ensure_ascii=False)
+            if x.get("desc") is not None and rng.random() < 0.15:
+                x["desc"] = rng.choice(EXOTIC_DESCS)
     return D
 
 
